@@ -45,7 +45,7 @@ func streamUserOp(o *Out, r *Rng, tier string) {
 	if tier == "thorough" {
 		nOps, perOp = 80, 200
 	}
-	o.meta.Rule = fmt.Sprintf("%d operators registered with AddOperation one after another (alias letters or symbols, written in lower/upper/mixed case; priority 1..7; left or right; semantics sub/pow/div/cat), after each: registry dump vs model, %d chains of 2..4 operators mixing it with earlier user operators and built-ins (+ - * / **), with and without blanks: postfix form vs the model's shunting yard on the model's table, value vs the tree the declared precedence and associativity determine. Distinct = distinct (chain, value) pairs.", nOps, perOp)
+	o.meta.Rule = fmt.Sprintf("%d operators registered with AddOperation one after another (alias letters or symbols, written in lower/upper/mixed case; priority 1..7 mostly, a quarter from {0,8,9,10,100,255}; left or right; operands numbers, parenthesised numbers or function calls; semantics sub/pow/div/cat), after each: registry dump vs model, %d chains of 2..4 operators mixing it with earlier user operators and built-ins (+ - * / **), with and without blanks: postfix form vs the model's shunting yard on the model's table, value vs the tree the declared precedence and associativity determine. Distinct = distinct (chain, value) pairs.", nOps, perOp)
 	builtins := []userOp{
 		{"+", 4, false, func(a, b float64) float64 { return a + b }},
 		{"-", 4, false, func(a, b float64) float64 { return a - b }},
@@ -81,6 +81,10 @@ func streamUserOp(o *Out, r *Rng, tier string) {
 		}
 		uf := userFns[r.Intn(len(userFns))]
 		op := userOp{name: lower, prio: 1 + r.Intn(7), right: r.Chance(40), fn: uf.fn}
+		if r.Chance(25) { // the priority is a uint8: levels above the whole built-in table (and level 0, below it) are declared levels too
+			op.prio = []int{0, 8, 9, 10, 100, 255}[r.Intn(6)]
+			o.Stat("registered.priority-outside-1..7")
+		}
 		fn := op.fn
 		ajson.AddOperation(string(alias), uint8(op.prio), op.right, func(left, right *ajson.Node) (*ajson.Node, error) {
 			a, err := left.GetNumeric()
@@ -135,9 +139,29 @@ func streamUserOp(o *Out, r *Rng, tier string) {
 			if r.Chance(30) {
 				sep = ""
 			}
-			text := strconv.Itoa(int(operands[0]))
+			// an operand is a number, a parenthesised number, or a function call whose value is that number (a call binds tighter than
+			// every operator, whatever priority was declared)
+			operand := func(v float64) string {
+				t := strconv.Itoa(int(v))
+				if sep == "" {
+					return t
+				}
+				switch r.Intn(8) {
+				case 0:
+					o.Stat("chain.operand.call")
+					return r.Pick([]string{"ceil", "abs", "floor", "round"}) + "(" + t + ")"
+				case 1:
+					o.Stat("chain.operand.paren")
+					return "(" + t + ")"
+				case 2:
+					o.Stat("chain.operand.call")
+					return "ceil(" + t + " - 0.5)"
+				}
+				return t
+			}
+			text := operand(operands[0])
 			for k, p := range ops {
-				text += sep + p.name + sep + strconv.Itoa(int(operands[k+1]))
+				text += sep + p.name + sep + operand(operands[k+1])
 			}
 			obs := obsRPN(text)
 			emit("rpnu\t"+hexOrDash([]byte(text)), obs, "u"+text+obs)
